@@ -1,5 +1,5 @@
 import Clover.Proofs.ScanRun
-import Clover.Proofs.ValueOrd
+import Clover.Proofs.PlannerModel
 import Clover.Probe.Scan
 import Clover.Probe.ScanRev
 import Clover.Probe.EntryBridge
@@ -160,9 +160,6 @@ end CV
 namespace CV
 open OC
 open Keys (isPrefix)
-
-/-- the range as the abstract planner / scan proofs see it -/
-def Range.abs (r : Range) : Pl.Range Value := ⟨r.start, r.stop, r.si, r.ei⟩
 
 section scan
 variable (c f : Bytes) (pre post : KVS) (E : List IEntry) (r : Range)
